@@ -260,6 +260,29 @@ def third_generation(kinds, root=None):
                     for node, txt in sorted(edits, key=lambda e: (e[0].lineno, e[0].col_offset), reverse=True):
                         new_src = splice(new_src, node, txt)
                     yield ("paramswap", f"{rel}:{fn.lineno}:{short}", rel, new_src)
+            # ---- privrename: a private module-level helper renamed together with every use (all in its own module)
+            if "privrename" in kinds and f.name.startswith("_") and not f.name.startswith("__") and f.cls is None and f.parent is None:
+                uses = []
+                elsewhere = False
+                for m2 in ana.prog.modules.values():
+                    for n in ast.walk(m2.tree):
+                        if (isinstance(n, ast.Name) and n.id == f.name) or (isinstance(n, ast.Attribute) and n.attr == f.name):
+                            if m2 is not mod or isinstance(n, ast.Attribute):
+                                elsewhere = True
+                            else:
+                                uses.append(n)
+                if uses and not elsewhere and f.name not in src.replace("def " + f.name, "").split("def ")[0] + "":
+                    new_name = f.name + "_impl"
+                    new_src = src
+                    edits = [(n, new_name) for n in uses]
+                    for node, txt in sorted(edits, key=lambda e: (e[0].lineno, e[0].col_offset), reverse=True):
+                        new_src = splice(new_src, node, txt)
+                    # the def line itself
+                    dl = fn.lineno - 1
+                    lines2 = new_src.split("\n")
+                    if ("def " + f.name + "(") in lines2[dl]:
+                        lines2[dl] = lines2[dl].replace("def " + f.name + "(", "def " + new_name + "(", 1)
+                        yield ("privrename", f"{rel}:{fn.lineno}:{short}", rel, "\n".join(lines2))
             for n in ast.walk(fn):
                 site = f"{rel}:{getattr(n, 'lineno', 0)}:{short}"
                 if "dbgassert" in kinds and isinstance(n, ast.Assert) and lines[n.lineno - 1].strip().startswith("assert"):
@@ -366,7 +389,7 @@ def analyse(job):
         shutil.rmtree(tmp, ignore_errors=True)
 
 
-THIRD = ("paramswap", "dbgassert", "tomap", "enumstart", "starargs", "fullzeros", "intwrap", "explicitdefault", "condstore")
+THIRD = ("privrename", "paramswap", "dbgassert", "tomap", "enumstart", "starargs", "fullzeros", "intwrap", "explicitdefault", "condstore")
 ALL_KINDS = ("flip", "negif", "ifexp", "kwargs", "posargs", "rettmp", "acc", "assigntmp", "nop",
              "unpack", "toifexp", "defaultelse", "rangeshift", "for2while", "comp2loop", "kwshuffle")
 
